@@ -87,7 +87,7 @@ InitTail == lc > Len(C) /\ Sil /\ (ContLoopNext \/ ContSrvNext)
 \* their event, so in front of the `crash` event its loop steps may be unlogged
 HostTail == lh <= Len(H) /\ H[lh].side = "harness" /\ H[lh].ev = "crash" /\ Sil /\ HostLoopNext
 \* the program's own exit is not logged
-EnvSilent == Sil /\ (ChildExit \/ (dz /\ DestroyClose) \/ (kz /\ InitDies) \/ Pdeathsig)
+EnvSilent == Sil /\ (ChildExit \/ ChildForks \/ (dz /\ DestroyClose) \/ (kz /\ InitDies) \/ Pdeathsig)
 
 TNext == HostEvents \/ HostSilent \/ HostTail \/ InitEvents \/ InitSilent \/ InitTail \/ EnvSilent
 TSpec == TInit /\ [][TNext]_tvars
